@@ -20,6 +20,10 @@ structure CTx where
   txid : Nat
   /-- `nondust_htlcs()`: `transaction_output_index` is the index in THIS transaction -/
   htlcs : List Htlc
+  /-- `commitment_number()`, `per_commitment_point()` (points are numbered by the harness), `negotiated_feerate_per_kw()` -/
+  num : Nat := 0
+  point : Nat := 0
+  feerate : Nat := 0
   deriving DecidableEq, Repr, Inhabited
 
 /-- the punishment-relevant part of a `FundingScope` -/
@@ -63,16 +67,45 @@ def updPending (txs : List CTx) : Nat → List Scope → Option (List Scope)
     | some s', some rest' => some (s' :: rest')
     | _, _ => none
 
--- mirrors lightning::chain::channelmonitor::ChannelMonitorImpl::update_counterparty_commitment_data
-def updateCommitmentData (m : Mon) (txs : List CTx) : Option Mon :=
+/-- `HTLCOutputInCommitment::is_data_equal`: the TRANSLATED conjunction (Gen.isDataEqual) over the model's fields; payment hashes are
+    not modelled (constant) -/
+def dataEq (a b : Htlc) : Bool := Gen.isDataEqual Htlc.offered Htlc.amtMsat Htlc.cltv (fun _ => 0) a b
+
+/-- the `for (nondust_htlc, other_nondust_htlc) in nondust_htlcs.iter().zip(other_nondust_htlcs.iter())` loop of
+    verify_matching_commitment_transactions (it runs after the length comparison) -/
+def htlcsDataEqual (a b : CTx) : Bool := (List.zipWith dataEq a.htlcs b.htlcs).all id
+
+/-- the TRANSLATED comparisons of verify_matching_commitment_transactions between `tx` and `other_commitment_tx` -/
+def versionMismatch (tx other : CTx) : Option String :=
+  Gen.versionMismatch CTx.num CTx.point CTx.feerate (fun t => t.htlcs.length) htlcsDataEqual tx other
+
+/-- the loop `for (funding, commitment_tx) in once(&self.funding).chain(self.pending_funding.iter()).zip(commitment_txs)`:
+    funding-outpoint check, then the comparisons with `other_commitment_tx`; `some msg` = `return Err(msg)` -/
+def verifyLoop : Option CTx → List Scope → List CTx → Option String
+  | _, [], _ => none
+  | _, _, [] => none
+  | other, s :: ss, t :: ts =>
+    if t.funding != s.funding then some "Commitment transaction spends invalid funding outpoint"
+    else match other.bind (versionMismatch t) with
+      | some e => some e
+      | none => verifyLoop (if Gen.verifyOtherIsPredecessor then some t else other) ss ts
+
+-- mirrors lightning::chain::channelmonitor::ChannelMonitorImpl::verify_matching_commitment_transactions (`none` = Ok(()))
+def verifyMatching (m : Mon) (txs : List CTx) : Option String :=
+  if m.pending.length + 1 != txs.length then some "Commitment transaction count mismatch"
+  else verifyLoop none (m.locked :: m.pending) txs
+
+/-- update_counterparty_commitment_data after `verify_matching_commitment_transactions(..)?` -/
+def storeCommitmentData (m : Mon) (txs : List CTx) : Option Mon :=
   if txs.length != m.pending.length + 1 then none      -- "Commitment transaction count mismatch"
   else
     match m.locked.update txs Gen.lockedKey Gen.lockedKey Gen.lockedSrc, updPending txs 0 m.pending with
     | some l, some p => some { locked := l, pending := p }
     | _, _ => none
 
-/-- `HTLCOutputInCommitment::is_data_equal` (payment hashes are not modelled) -/
-def dataEq (a b : Htlc) : Bool := a.amtMsat == b.amtMsat && a.offered == b.offered && a.cltv == b.cltv
+-- mirrors lightning::chain::channelmonitor::ChannelMonitorImpl::update_counterparty_commitment_data
+def updateCommitmentData (m : Mon) (txs : List CTx) : Option Mon :=
+  if (verifyMatching m txs).isSome then none else storeCommitmentData m txs
 
 /-- the new scope's list: the current list with every index overwritten by the alternative transaction's -/
 def renegList (alt cur : List Htlc) : List Htlc :=
@@ -110,6 +143,12 @@ def step (m : Mon) : Op → Option Mon
 def run (m : Mon) : List Op → Option Mon
   | [] => some m
   | op :: rest => (step m op).bind (fun m' => run m' rest)
+
+/-- the transaction lists of the counterparty-commitment updates of a history -/
+def seenCommits : List Op → List (List CTx)
+  | [] => []
+  | .commit txs :: rest => txs :: seenCommits rest
+  | _ :: rest => seenCommits rest
 
 /-- every commitment transaction the history handed to the monitor -/
 def seenTxs : List Op → List CTx
